@@ -20,6 +20,7 @@ SEGMENTS = {"quick": 120, "thorough": 300}
 MAX_Q = 5
 MAX_POOL = 8
 MAX_GATES = 1500
+INTERRUPTIBLE = ("append_circuit", "add", "iadd", "iadd_gate", "repeat", "copy", "remove_identities", "qft_iqft")
 
 ONE_Q = ["I", "X", "Y", "Z", "H", "S", "T", "P"]
 TWO_Q = ["CX", "CZ", "CP", "SWAP"]
@@ -183,8 +184,9 @@ class Gen:
             self.gset = [g for g in allg if r.random() < 0.7] or ["X", "H"]
         if not any(g in ONE_Q for g in self.gset):
             self.gset.append(r.choice(ONE_Q))
+        x_arm = r.random()
         self.cfg = {
-            "arm": "natural-faults" if r.random() < 0.3 else "clean",
+            "arm": "natural-faults" if x_arm < 0.3 else ("interrupt" if x_arm < 0.5 else "clean"),
             "nops": r.randint(6, 40),
             "enh": r.choice([0.2, 0.5, 0.8]),
             "twice": r.choice([0.1, 0.3, 0.6]),
@@ -416,7 +418,17 @@ class Gen:
             guard += 1
             kind = wchoice(r, sorted(self.w.items()))
             getattr(self, "b_" + kind)()
-        return {"prop": PROP, "seed": self.seed, "tier": self.tier, "cfg": self.cfg, "ops": self.ops, "faults": []}
+        faults = []
+        if self.cfg["arm"] == "interrupt":
+            # Ctrl-C at the k-th library source line of a composition operator. k is part of the plan itself (no
+            # estimate to freeze): skewed to small values, because these operators run 10-100 lines; a k beyond the
+            # operator's last line simply does not fire (counted)
+            rf = rng_for(self.seed, "faults")
+            cand = [o["id"] for o in self.ops if o["kind"] in INTERRUPTIBLE]
+            for _ in range(rf.randint(1, 4)):
+                if cand:
+                    faults.append({"op": rf.choice(cand), "kind": "interrupt", "frac": 0.0, "k": 1 + int((rf.random() ** 2) * rf.choice([12, 40, 120]))})
+        return {"prop": PROP, "seed": self.seed, "tier": self.tier, "cfg": self.cfg, "ops": self.ops, "faults": faults}
 
 
 def generate(seed, tier, env=None, canaries=None):
@@ -531,6 +543,15 @@ def run_segment(plan, ctx, detail=False, table=None):
     cfg, ops = plan["cfg"], plan["ops"]
     random.seed(cfg.get("rseed", 0))
     objs, model, sfp, names = {}, {}, {}, {}
+    faults = {}
+    for f in plan.get("faults", []):
+        faults.setdefault(f["op"], []).append(f)
+    tracer = None
+    if faults:
+        from node import get_tracer
+
+        tracer = get_tracer(ctx.src_prefix)
+    placed = []
     records = []
     violation = None
     probes = {}
@@ -568,6 +589,10 @@ def run_segment(plan, ctx, detail=False, table=None):
         mutated = None  # id of the entry this op is allowed to change
         outcome = "ok"
         n_before = len(objs[tgt].gates) if tgt in objs else 0
+        flist = sorted([f["k"], f["kind"]] for f in faults.get(oid, []))
+        if flist:
+            tracer.arm([(f[0], f[1]) for f in flist])
+            tracer.start()
         try:
             if k == "new":
                 if a.get("anc"):
@@ -722,9 +747,27 @@ def run_segment(plan, ctx, detail=False, table=None):
                 gc.collect()
             else:
                 raise RuntimeError("unknown op " + k)
+        except KeyboardInterrupt:
+            outcome = "faulted:interrupt"
         except Exception as e:
             outcome = "raised:" + type(e).__name__
             rec["msg"] = str(e)[:200]
+        finally:
+            if flist:
+                tracer.stop()
+        if flist:
+            if any(f[0] == "interrupt" for f in tracer.fired):
+                # the operator was interrupted: its result is lost, its target is whatever it is now (the statement is
+                # silent about a call that did not return) -- but its OPERANDS and everybody else must be as before
+                outcome, new_obj, new_model, ri_uncompute = "faulted:interrupt", None, None, None
+                rec["fired"] = [list(f) for f in tracer.fired]
+                probe("fired_in_op_interrupt")
+                probe("interrupted:" + k)
+            else:
+                probe("interrupt_planned_beyond_the_operator's_last_line")
+            tracer.pending = []
+            for f in faults.get(oid, []):
+                placed.append({"op": oid, "kind": f["kind"], "frac": f.get("frac", 0.0), "k": f["k"], "how": "plan"})
         rec["outcome"] = outcome
         records.append(rec)
 
@@ -777,7 +820,7 @@ def run_segment(plan, ctx, detail=False, table=None):
                     model.pop(tgt, None)
                     sfp.pop(tgt, None)
         # ---- A0: the statement's operators complete on well-formed operands
-        if outcome != "ok" and not expect_fault and k not in ("from_qlassf", "opaque"):
+        if outcome != "ok" and outcome != "faulted:interrupt" and not expect_fault and k not in ("from_qlassf", "opaque"):
             violation = viol("A0", op, "target", [outcome], msg=rec.get("msg"))
         # ---- bookkeeping of the model
         if k == "opaque":
@@ -847,8 +890,10 @@ def run_segment(plan, ctx, detail=False, table=None):
         outc[oc] = outc.get(oc, 0) + 1
     strip = lambda rr: {k: v for k, v in rr.items() if k != "msg"}
     dg = digest([[strip(r_) for r_ in records], _vclass(violation)])
-    return {"status": "ok", "digest": dg, "violation": violation, "steps": len(records), "placed": [],
-            "stats": {"ops": opk, "outcomes": outc, "probes": probes, "arm": cfg["arm"], "nontrivial": {"yes": 1 if nt else 0}, "states": [digest(shapes[: i + 1][-4:], 10) for i in range(len(shapes))]}}
+    return {"status": "ok", "digest": dg, "violation": violation, "steps": len(records), "placed": placed,
+            "stats": {"ops": opk, "outcomes": outc, "probes": probes, "arm": cfg["arm"], "nontrivial": {"yes": 1 if nt else 0},
+                      "faults_planned": {"interrupt": len(plan.get("faults", []))}, "faults_fired": {"interrupt": sum(len(r_.get("fired", [])) for r_ in records)},
+                      "fired_sites": sorted({f"{f[1]}:{f[2]}" for r_ in records for f in r_.get("fired", [])}), "states": [digest(shapes[: i + 1][-4:], 10) for i in range(len(shapes))]}}
 
 
 def _vclass(v):
@@ -890,6 +935,7 @@ def without_ops(plan, removed):
                 changed = True
     p = dict(plan)
     p["ops"] = [op for op in plan["ops"] if op["id"] not in bad]
+    p["faults"] = [f for f in plan.get("faults", []) if f["op"] not in bad]
     # add_qubit changes the width known to later ops: dropping one may make later wires invalid;
     # such candidates simply fail the test and are discarded by ddmin
     return p
@@ -897,6 +943,10 @@ def without_ops(plan, removed):
 
 def simplify_candidates(plan):
     out = []
+    for i in range(len(plan.get("faults", []))):
+        p = dict(plan)
+        p["faults"] = plan["faults"][:i] + plan["faults"][i + 1 :]
+        out.append(p)
     for idx, op in enumerate(plan["ops"]):
         a = op["a"]
         if op["kind"] in ("new", "gate") and len(a.get("gates", [])) > 1:
@@ -929,6 +979,8 @@ def describe(plan):
             out.append(f"#{op['id']} {op['kind']} {a['src'].strip().splitlines()[0][:70]}")
         else:
             out.append(f"#{op['id']} {op['kind']} {canon(a)}")
+    for f in plan.get("faults", []):
+        out.append(f"fault {f['kind']} in op #{f['op']} at library line {f.get('k')}")
     return out
 
 
@@ -936,13 +988,13 @@ def nontrivial_key(plan, result):
     nt = bool((result or {}).get("stats", {}).get("nontrivial", {}).get("yes"))
     # distinct = aliasing graph (who was derived from / composed with whom, by which op) + op sequence
     shape = [[op["kind"], [op["id"] - u for u in op["uses"]], op["a"].get("vanilla"), op["a"].get("n") if op["kind"] == "repeat" else None, "fault" in op["a"]] for op in plan["ops"]]
-    return nt, digest(shape, 16)
+    return nt, digest([shape, [[f["op"], f["kind"], f.get("k")] for f in plan.get("faults", [])]], 16)
 
 
 RULE = (
-    "history = seeded sequence of composition operators (append_circuit with injective remaps, +, +=, += gate tuple, repeat(1..4), copy, copy(vanilla), "
+    "history = seeded sequence of composition operators (append_circuit with injective remaps, +, +=, += gate tuple, repeat(1..6), copy, copy(vanilla), "
     "remove_identities, qft;iqft on any qubit sub-list, add_qubit) and builder calls on ANY member of a pool of QCircuit/QCircuitEnhanced objects (own generator over "
-    "I X Y Z H S T P CX CZ CP SWAP CCX MCX MCtrl(Z) barrier, QCircuit.random, compiled functions), plus natural faults (wider other, wrong-length qubit list). "
+    "I X Y Z H S T P CX CZ CP SWAP CCX MCX MCtrl(Z) barrier, QCircuit.random, compiled functions), plus natural faults (wider other, wrong-length qubit list) and, in its own arm, KeyboardInterrupt at the k-th library source line of a composition operator. "
     "non-trivial = some entry is mutated after having been an operand or a result of a composition. distinct = op sequence with operand distances (the aliasing graph)."
 )
 COMPONENTS = {
